@@ -206,6 +206,52 @@ def main():
         bool(re.search(r"\(_,\s*IntLiteral::Big\(d\)\)\s*if\s*\*\*d\s*==\s*(?:num_bigint::)?BigInt::ZERO\s*=>", r2s))
     s2n_checked = filt and guard
 
+    # mixed exact / inexact: conversions used by the arms, the shape of subtraction / division, cmp_exact_with_float --
+    numsrc = strip_comments(nums)
+    rvsrc = strip_comments(rvals)
+    conv = []
+    for fn in ("add_two", "add_two_fallible", "multiply_two"):
+        b = fn_body(numsrc, fn)
+        opch = r"\*" if fn == "multiply_two" else r"\+"
+        for kind, cexpr, tag in (("IntV", r"\*y\s+as\s+f64", "as_f64"), ("BigNum", r"y\.to_f64\(\)\.unwrap\(\)", "to_f64"),
+                                 ("Rational", r"y\.to_f64\(\)\.unwrap\(\)", "to_f64"),
+                                 ("BigRational", r"y\.to_f64\(\)\.unwrap\(\)", "to_f64")):
+            pat = (r"\(SteelVal::NumV\(x\),\s*SteelVal::%s\(y\)\)\s*\|\s*\(SteelVal::%s\(y\),\s*SteelVal::NumV\(x\)\)\s*=>\s*\{?\s*"
+                   r"\(x\s*%s\s*%s\)\.into_steelval\(\)") % (kind, kind, opch, cexpr)
+            if not re.search(pat, b):
+                die("%s: the (NumV, %s) arm is no longer `x op <%s of y>`" % (fn, kind, tag))
+            conv.append((fn, kind, tag))
+    sb = fn_body(numsrc, "subtract_primitive")
+    sub_shape = bool(re.search(r"\[x\s*@\s*SteelVal::NumV\(_\),\s*SteelVal::IntV\(0\)\]\s*=>\s*Ok\(x\.clone\(\)\)", sb)) and \
+        bool(re.search(r"negate\(&add_primitive_no_check\(ys\)\?\)\?", sb)) and bool(re.search(r"add_two\(x,\s*&y\)", sb))
+    if not sub_shape:
+        die("subtract_primitive: shape changed")
+    ng = fn_body(numsrc, "negate")
+    if not re.search(r"SteelVal::NumV\(x\)\s*=>\s*\(-x\)\.into_steelval\(\)", ng):
+        die("negate: the NumV arm changed")
+    db = fn_body(numsrc, "divide_primitive")
+    via_recip = bool(re.search(r"\[x,\s*y\]\s*=>\s*multiply_two\(x,\s*&recip\(y\)\?\)", db)) and \
+        bool(re.search(r"SteelVal::NumV\(n\)\s*=>\s*n\.recip\(\)\.into_steelval\(\)", db))
+    if not via_recip and not re.search(r"\[x,\s*y\]\s*=>", db):
+        die("divide_primitive: shape changed")
+    cb = fn_body(rvsrc, "cmp_exact_with_float")
+    special = []
+    if re.search(r"if\s+float\.is_nan\(\)\s*\{\s*None", cb):
+        special.append(("nan", "None"))
+    m = re.search(r"float\s*==\s*f64::INFINITY\s*\{\s*Some\(Ordering::(\w+)\)", cb)
+    if m:
+        special.append(("posInf", m.group(1)))
+    m = re.search(r"float\s*==\s*f64::NEG_INFINITY\s*\{\s*Some\(Ordering::(\w+)\)", cb)
+    if m:
+        special.append(("negInf", m.group(1)))
+    m = re.search(r"if\s+let\s+IntV\(x\)\s*=\s*exact\s*\{\s*if\s+x\.unsigned_abs\(\)\s*<=\s*\(1usize\s*<<\s*(\d+)\)\s*\{\s*"
+                  r"return\s+\(\*x\s+as\s+f64\)\.partial_cmp\(&float\)", cb)
+    if not m:
+        die("cmp_exact_with_float: the fixnum fast path is no longer `x.unsigned_abs() <= (1usize << K)` + cast + partial_cmp")
+    fast_bits = int(m.group(1))
+    if not re.search(r"BigRational::from_float\(float\)\.map\(\|float\|\s*exact\.cmp\(&float\)\)", cb):
+        die("cmp_exact_with_float: the slow path is no longer exact.cmp(from_float(float))")
+
     # write ----------------------------------------------------------------------------------------
     L = ["/- GENERATED by translate/c10_ops.py from vm.rs, compiler/program.rs, compiler/code_gen.rs and the",
          "   primitive registrations — do not edit. -/",
@@ -226,13 +272,24 @@ def main():
           "/-- `string->number` answers `#f` for a zero denominator (`has_zero_denominator` filter in string_to_number) and",
           "`real_literal_to_steelval` guards `BigRational::new` against one (false: the code as pinned, finding K10g) -/",
           "def s2nChecked : Bool := %s" % str(s2n_checked).lower(),
+          "",
+          "/-- mixed arms of add_two / add_two_fallible / multiply_two: (function, exact kind, conversion of the exact operand);",
+          "every arm is `x op conv(y)` with the double `x` on the left -/",
+          "def mixedConversions : List (String × String × String) := [",
+          ",\n".join('  ("%s", "%s", "%s")' % c for c in conv), "]",
+          "/-- `[x, y] => multiply_two(x, &recip(y)?)` with `NumV(n) => n.recip()` (finding K10e) -/",
+          "def divViaReciprocal : Bool := %s" % str(via_recip).lower(),
+          "/-- cmp_exact_with_float: answers for NaN / +inf / -inf, and K of the fixnum fast path `|x| <= 1 << K` -/",
+          "def cmpSpecial : List (String × String) := [%s]" % ", ".join('("%s", "%s")' % c for c in special),
+          "def cmpFastPathBits : Nat := %d" % fast_bits,
           "", "end SteelVerif.C10.Gen", ""]
     text = "\n".join(L)
     old = open(OUT).read() if os.path.exists(OUT) else None
     if old != text:
         open(OUT, "w").write(text)
     print(json.dumps({"op_codes": len(dispatch), "emission_rules": len(rules), "registered": len(registered),
-                      "dispatch": {op: fns for (op, fns, _) in dispatch}, "s2nChecked": s2n_checked,
+                      "dispatch": {op: fns for (op, fns, _) in dispatch}, "s2nChecked": s2n_checked, "divViaReciprocal": via_recip, "cmpFastPathBits": fast_bits,
+                      "mixed_arms": len(conv),
                       "changed": old != text}))
 
 
